@@ -69,7 +69,9 @@ class R:
 
 
 class Model:
-    def __init__(self, prog, until=None):
+    def __init__(self, prog, until=None, interacting=None):
+        if interacting is not None:
+            self.INTERACTING = set(interacting)
         self.prog = prog
         self.now = F(0)
         self.trace = []
@@ -143,6 +145,14 @@ class Model:
                 clock = op[2] if op[2] is not None else wclock
                 r.clock = clock
                 self.play_on(r.name, clock, op[3], now)
+        elif k == 'sched':
+            r = self.routines[op[3]]
+            clock = op[1] if op[1] is not None else wclock
+            if r.state == 'init':
+                r.state = 'suspended'
+            r.clock = clock
+            self.sched(clock, self.secs_to_key(clock, now) + fr(op[2]),
+                       r.name)
         elif k == 'pause':
             r = self.routines[op[1]]
             if r.name == who:
@@ -184,7 +194,8 @@ class Model:
             c.bpb = fr(op[2])
         elif k == 'msg':
             self.bundles.append({'time': now, 'lat': 0, 'who': who,
-                                 'elems': [['/m', op[1]]], 'msg': True})
+                                 'elems': [['/m', op[1]]], 'msg': True,
+                                 'embed': op[2] if len(op) > 2 else None})
         elif k == 'bundle':
             for _ in range(2 if len(op) > 3 and op[3] == 'twice' else 1):
                 if self.bundle_ok(op[1], op[2]):
@@ -328,7 +339,7 @@ class Model:
     # routines that only log / wait / send / wait on conditions do not
     # influence one another, whatever their relative order
     INTERACTING = {'pause', 'resume', 'stop', 'tempo', 'beats', 'meter',
-                   'play', 'csignal', 'ctest', 'cunhang', 'fset'}
+                   'play', 'sched', 'csignal', 'ctest', 'cunhang', 'fset'}
 
     def interacts(self, rname):
         """Does the routine, in the step it is about to run (up to its next
